@@ -218,7 +218,15 @@ class ServerTwin:
         app = f["app"]
         if f["mailbox"] is None:
             self._open_mailbox(app, mbid, f["side"])
-        mb = app["mailboxes"][mbid]
+        mb = app["mailboxes"].get(mbid)
+        if mb is None:
+            # a handle left over from before the mailbox was deleted (closed by the last side through another
+            # connection): Mailbox.close() finds no row and does nothing; the reply is `closed` all the same
+            f["listening"] = False
+            f["did_close"] = True
+            f["mailbox"] = None
+            conn.send({"type": "closed"})
+            return
         if f["listening"]:
             if conn in mb["listeners"]:
                 mb["listeners"].remove(conn)
